@@ -308,6 +308,7 @@ def build_model(combo, classes):
     m1, m2 = ('CH4', 'H2O') if combo['gas2'] == 'PowerGas/auto' else ('H2O', 'CH4')   # 'auto' coefficients exist for H2O only
     chem.addGas(K(combo['gas1'])(molecule_name=m1, **GASES[combo['gas1']]))
     chem.addGas(K(combo['gas2'])(molecule_name=m2, **GASES[combo['gas2']]))
+    chem.addGas(K('ConstantGas')(molecule_name='N2', mix_ratio=3e-3))      # no opacity registered: an *inactive* gas
     temp = K(combo['temp'])(**TEMPS[combo['temp']])
     press = K('SimplePressureProfile')(nlayers=NL, atm_min_pressure=1e-1, atm_max_pressure=1e6)
     model = K(combo['model'])(planet=K('Planet')(**PLANET), star=K('BlackbodyStar')(**STAR), chemistry=chem,
